@@ -80,9 +80,7 @@ def correspond(res, tier):
     corr_panels(res, tier, 'C12p', curves=('unitsquare', 'rect32', 'lshape'))
 
 
-class Stub:
-    def __init__(self, t, x, gamma):
-        self.time_interval, self.space_interval, self.gamma_space = t, x, gamma
+Stub = StubElem     # the repository's own virtual-element class
 
 
 def uniform_mesh(cname, levels):
@@ -187,4 +185,69 @@ def search(res, tier, boost=False):
                 if err > 1e-7:
                     res.violation('C12:not-invariant:%s:graded-%s' % (name, kind), dict(curve=cname, move=name, test=describe(te), trial=describe(tr),
                                   moved_test=describe(te2), moved_trial=describe(tr2), base=float(base), moved=float(moved), scaled_error=err))
+    # whole-matrix sweep on ONE operator object: a tensor mesh of equal time slabs, refined in space towards the
+    # seam / the ends symmetrically under x -> L - x; all causal entries are evaluated once, in index order, by the
+    # same operator (so anything the operator remembers between calls is in play), then every entry is compared
+    # with its image under exchange (bitwise), shift by one slab (bitwise) and reflection (1e-7 * scale)
+    from src.mesh import MeshParametrized
+    for cname, rounds in (('UnitSquare', 2), ('Circle', 2)) if tier == 'quick' and not boost else \
+            (('UnitSquare', 3), ('Circle', 3), ('PiSquare', 2), ('UnitInterval', 2)):
+        gamma = make_curve(cname)
+        L = float(gamma.gamma_length)
+        with contextlib.redirect_stdout(io.StringIO()):
+            mesh = MeshParametrized(gamma, initial_time_mesh=[0., 0.5, 1.0, 1.5])
+            for _ in range(rounds):
+                for e in [e for e in mesh.leaf_elements if e.space_interval[0] == 0 or abs(e.space_interval[1] - L) < 1e-12 * L]:
+                    if not e.children:
+                        mesh.refine_space(e)
+        ops = RealOps(gamma, mesh)
+        elems = list(mesh.leaf_elements)
+        for pw in (False, True):
+            if pw and cname == 'Circle':
+                continue
+            SL = ops.SL[pw]
+            M = {}
+            for i, te in enumerate(elems):
+                for j, tr in enumerate(elems):
+                    if te.time_interval[1] > tr.time_interval[0]:
+                        M[(i, j)] = SL.bilform(tr, te)
+            idx = {id(e): i for i, e in enumerate(elems)}
+
+            def at(t, x):
+                e = find(elems, t, x, L)
+                return None if e is None else idx[id(e)]
+            reported = set()
+            for (i, j), v in M.items():
+                te, tr = elems[i], elems[j]
+                res.count(('sweep', cname, pw, i, j), True)
+                # exchange of the space intervals
+                i2, j2 = at(te.time_interval, tr.space_interval), at(tr.time_interval, te.space_interval)
+                if i2 is not None and j2 is not None and (i2, j2) in M and (not pw or te.gamma_space is tr.gamma_space):
+                    if M[(i2, j2)] != v and 'ex' not in reported:
+                        reported.add('ex')
+                        res.violation('C12:exchange-not-bitwise:one-operator-sweep', dict(curve=cname, pw_exact=pw, test=describe(te), trial=describe(tr),
+                                      base=float(v), exchanged=float(M[(i2, j2)]), note='all entries evaluated in index order by one operator object'))
+                # shift by one slab
+                sh = lambda iv: (iv[0] + 0.5, iv[1] + 0.5)
+                i3, j3 = at(sh(te.time_interval), te.space_interval), at(sh(tr.time_interval), tr.space_interval)
+                if i3 is not None and j3 is not None and (i3, j3) in M:
+                    if M[(i3, j3)] != v and 'sh' not in reported:
+                        reported.add('sh')
+                        res.violation('C12:time-shift-not-bitwise:one-operator-sweep', dict(curve=cname, pw_exact=pw, test=describe(te), trial=describe(tr),
+                                      base=float(v), shifted=float(M[(i3, j3)])))
+                # reflection x -> L - x
+                if cname != 'UnitInterval' or True:
+                    rf = lambda iv: (L - iv[1], L - iv[0])
+                    i4, j4 = at(te.time_interval, rf(te.space_interval)), at(tr.time_interval, rf(tr.space_interval))
+                    if i4 is not None and j4 is not None and (i4, j4) in M:
+                        if pw and (elems[i4].gamma_space is not elems[j4].gamma_space or te.gamma_space is not tr.gamma_space):
+                            continue
+                        sc = ops.scale(te, tr)
+                        err = abs(M[(i4, j4)] - v) / sc
+                        worst = max(worst, err)
+                        if err > 1e-7 and 'rf' not in reported:
+                            reported.add('rf')
+                            res.violation('C12:not-invariant:reflect:one-operator-sweep', dict(curve=cname, pw_exact=pw, test=describe(te), trial=describe(tr),
+                                          base=float(v), moved=float(M[(i4, j4)]), scaled_error=err))
+            res.bump('sweep_entries', len(M))
     res.notes['worst_scaled_error'] = worst
